@@ -206,8 +206,9 @@ class Engine:
             if isinstance(e.slice, ast.Slice):
                 lo = self.ev(e.slice.lower, p, fr) if e.slice.lower else None
                 hi = self.ev(e.slice.upper, p, fr) if e.slice.upper else None
-                if self.track_exc and (lo == ("c", None) and e.slice.lower is not None or hi == ("c", None) and e.slice.upper is not None):
-                    self.xsite(p, "TypeError", "none-slice-bound", ("slice", a, lo, hi), e.lineno, fr)
+                # (None is a legal slice bound: x[None:n] is x[:n])
+                lo = None if lo == ("c", None) else lo
+                hi = None if hi == ("c", None) else hi
                 return ("slice", a, lo, hi)
             idx = self.ev(e.slice, p, fr)
             if self.track_exc and isinstance(e.ctx, ast.Load):
